@@ -22,20 +22,22 @@ from vf import fgen, genmodels, layout, site  # noqa: E402
 PID = "C09"
 
 
-def make_pages(root, rng, depth_max=2):
+def make_pages(root, rng, depth_max=2, refs=""):
+    """`refs`: text with [[entity]] references, written identically on every page (pages of several depths show the same
+    reference: each must get the URL that is right from its own directory)"""
     pd = os.path.join(root, "pages")
     os.makedirs(pd)
     sub = " [sub](sub1/index.html)" if depth_max >= 1 else ""
-    open(os.path.join(pd, "index.md"), "w").write(f"title: Top Pages\n\nTop page text.{sub} [a](a_page.html)\n")
-    open(os.path.join(pd, "a_page.md"), "w").write("title: A page\n\nLink to [top](index.html) and url [home](|url|/index.html) and [self](|page|/a_page.html)\n")
+    open(os.path.join(pd, "index.md"), "w").write(f"title: Top Pages\n\nTop page text.{sub} [a](a_page.html){refs}\n")
+    open(os.path.join(pd, "a_page.md"), "w").write(f"title: A page\n\nLink to [top](index.html) and url [home](|url|/index.html) and [self](|page|/a_page.html){refs}\n")
     if depth_max >= 1:
         os.makedirs(os.path.join(pd, "sub1"))
         deep = " [deep](deep/index.html)" if depth_max >= 2 else ""
-        open(os.path.join(pd, "sub1", "index.md"), "w").write(f"title: Sub One\n\nSub [up](../index.html){deep} [a](|page|/a_page.html)\n")
-        open(os.path.join(pd, "sub1", "other.md"), "w").write("title: Other\n\nOther page [sib](index.html)\n")
+        open(os.path.join(pd, "sub1", "index.md"), "w").write(f"title: Sub One\n\nSub [up](../index.html){deep} [a](|page|/a_page.html){refs}\n")
+        open(os.path.join(pd, "sub1", "other.md"), "w").write(f"title: Other\n\nOther page [sib](index.html){refs}\n")
     if depth_max >= 2:
         os.makedirs(os.path.join(pd, "sub1", "deep"))
-        open(os.path.join(pd, "sub1", "deep", "index.md"), "w").write("title: Deep\n\nDeep [top](../../index.html) [home](|url|/index.html)\n")
+        open(os.path.join(pd, "sub1", "deep", "index.md"), "w").write(f"title: Deep\n\nDeep [top](../../index.html) [home](|url|/index.html){refs}\n")
     return "./pages"
 
 
@@ -97,8 +99,11 @@ def make_project(seed, root):
             "proc_internals": rng.random() < 0.5, "display": rng.choice([["public"], ["public", "protected"], ["public", "private", "protected"], ["none"]]),
             "sort": rng.choice(["src", "alpha", "permission", "permission-alpha", "type", "type-alpha"]), "source": rng.random() < 0.3,
             "warn": False, "quiet": True}
+    # the same [[entity]] references on the front page, in the summary and on static pages of every depth
+    targets = [u.name for f in files for u in f.units if getattr(u, "kind", None) in ("module", "program")][:2]
+    refs = (" See " + " and ".join(f"[[{t}]]" for t in targets) + ".") if targets and seed % 3 != 2 else ""
     if rng.random() < 0.5:
-        opts["page_dir"] = make_pages(root, rng, rng.randint(0, 2))
+        opts["page_dir"] = make_pages(root, rng, rng.randint(0, 2), refs)
     if rng.random() < 0.35:
         opts["hide_undoc"] = True  # documented entities inside undocumented (hidden) parents
     if rng.random() < 0.25:
@@ -107,12 +112,12 @@ def make_project(seed, root):
         opts["graph_maxnodes"] = rng.choice([1, 2, 3])
         opts["graph_maxdepth"] = rng.choice([1, 2])
     if rng.random() < 0.3:
-        opts["summary"] = "Short summary text"
+        opts["summary"] = "Short summary text" + refs
         opts["author"] = "A. Uthor"
     if rng.random() < 0.2:
         opts["extra_filetypes"] = ["inc !"]
         open(os.path.join(src, f"extra{seed}.inc"), "w").write("! just a comment\n!! doc for the include file zx1\n")
-    site.write_project_file(root, opts, body=f"Front page of project {seed}.\n")
+    site.write_project_file(root, opts, body=f"Front page of project {seed}.{refs}\n")
     return shape, opts
 
 
